@@ -196,17 +196,20 @@ class BodyParser:
 
     # -- calls ------------------------------------------------------------------------
     def literal_args(self, fn):
-        """'(' already eaten; consume up to the matching ')'; arguments may not mention a parameter"""
+        """'(' already eaten; consume up to the matching ')'.  The arguments may not evaluate a parameter, and
+        the call must be `constant format, then one argument per conversion`: the format argument consists of
+        string literals only (a format built from the stringified parameter - "text " #x "\\n" - would have the
+        parameter's own spelling read as conversions and is outside the grammar), every conversion is one of
+        the few plain forms the header uses, and each is matched by an argument of its type; the stringified
+        parameter may only be a complete argument of a %s conversion."""
         depth = 1
-        first = True
         params = {self.ctx['cond'], self.ctx['val'], self.ctx['args']} - {None}
-        n = 0
+        args, cur = [], []
         while True:
             k, v = self.peek()
             if k is None:
                 self.fail('unterminated argument list of %s' % fn)
             self.i += 1
-            n += 1
             if k == 'op' and v == '(':
                 depth += 1
             elif k == 'op' and v == ')':
@@ -214,7 +217,10 @@ class BodyParser:
                 if depth == 0:
                     break
             elif k == 'op' and v == ',':
-                pass
+                if depth == 1:
+                    args.append(cur)
+                    cur = []
+                    continue
             elif k in ('str', 'num'):
                 pass
             elif k == 'hash':
@@ -225,15 +231,58 @@ class BodyParser:
                     self.fail('macro parameter %s evaluated inside the argument list of %s' % (v, fn))
                 if v not in LITERAL_IDS:
                     self.fail('identifier %s not allowed in a literal argument list' % v)
-                if fn == 'fprintf' and first and v != 'LIBAST_DEBUG_FD':
-                    self.fail('fprintf to something other than LIBAST_DEBUG_FD')
             else:
                 self.fail('token not allowed in an argument list')
-            if first and fn == 'fprintf' and not (k == 'id' and v == 'LIBAST_DEBUG_FD'):
-                self.fail('fprintf to something other than LIBAST_DEBUG_FD')
-            first = False
-        if n == 1:
+            cur.append((k, v))
+        if not args and not cur:
             self.fail('empty argument list of %s' % fn)
+        args.append(cur)
+        if any(not a for a in args):
+            self.fail('empty argument in the argument list of %s' % fn)
+        if self.ctx.get('lenient'):
+            return          # listing the macros for the probe programs only (see generate())
+        if fn == 'fprintf':
+            if args[0] != [('id', 'LIBAST_DEBUG_FD')]:
+                self.fail('fprintf to something other than LIBAST_DEBUG_FD')
+            args = args[1:]
+            if not args:
+                self.fail('fprintf without a format')
+        for a in args:
+            if any(k == 'id' and v == 'LIBAST_DEBUG_FD' for (k, v) in a):
+                self.fail('LIBAST_DEBUG_FD used as a message argument')
+        fmt, rest = args[0], args[1:]
+        if any(k == 'hash' for (k, _) in fmt):
+            self.fail('the format string of %s is built from the stringified parameter (its text would be read as conversions); '
+                      'the grammar has only `constant format, parameter text as an argument of %%s`' % fn)
+        if any(k != 'str' for (k, _) in fmt):
+            self.fail('format argument of %s is not a string literal' % fn)
+        text = ''.join(v[1:-1] for (_, v) in fmt)
+        convs = []
+        j = 0
+        while True:
+            j = text.find('%', j)
+            if j < 0:
+                break
+            m = re.compile(r'%(?:(%)|[-0 ]*\d*(?:\.\d+)?(l?)([dus]))').match(text, j)
+            if not m:
+                self.fail('conversion outside the grammar in the format of %s: %r' % (fn, text[j:j + 6]))
+            if not m.group(1):
+                convs.append((m.group(2), m.group(3)))
+            j = m.end()
+        if len(convs) != len(rest):
+            self.fail('the format of %s has %d conversion(s) but %d argument(s) follow' % (fn, len(convs), len(rest)))
+        for (ln, cv), a in zip(convs, rest):
+            kinds = [k for (k, _) in a]
+            if cv == 's':
+                ok = (not ln) and (a == [a[0]] and (a[0][0] == 'hash' or a[0] in (('id', '__FILE__'), ('id', '__FUNCTION__')))
+                                   or all(k == 'str' for k in kinds))
+            elif ln:
+                ok = a[:4] in ([('op', '('), ('id', 'unsigned'), ('id', 'long'), ('op', ')')],) and 'hash' not in kinds and 'str' not in kinds \
+                    and cv == 'u'
+            else:
+                ok = cv == 'd' and (a == [('id', '__LINE__')] or (len(a) == 1 and a[0][0] == 'num'))
+            if not ok:
+                self.fail('argument %s of %s does not fit its conversion %%%s%s' % (' '.join(v for (_, v) in a), fn, ln, cv))
 
     def call(self):
         fn = self.eat('id')
@@ -241,8 +290,6 @@ class BodyParser:
             self.eat('id')
             return ('out', 'PDprintf', True)
         self.eat('op', '(')
-        if fn != 'fprintf' and not self.at('str'):
-            self.fail('format argument of %s is not a string literal' % fn)
         self.literal_args(fn)
         return ('out', PRIMS[fn], False)
 
@@ -548,7 +595,11 @@ def coq_atom(a, pol):
 
 
 # --------------------------------------------------------------------------------------
-def generate(repo):
+def generate(repo, lenient=False):
+    """lenient: do not hold the output calls to the `constant format + matching arguments` grammar.  The
+    result is then good for one thing only - the macro list (info) from which checks/c20.py builds its probe
+    programs when the strict translation failed on exactly that point, so that the broken tie can be
+    turned into a concrete failing cell.  The Coq text of a lenient run is never written anywhere."""
     h = src(repo, 'include/libast.h')
     # ---- single-line anchors -----------------------------------------------------------
     def need(text, pat, what, flags=re.M):
@@ -654,7 +705,7 @@ def generate(repo):
                 if arity != 0:
                     err('line %d: %s: expected an empty parameter list' % (ln, name))
             where = 'libast.h:%d (%s)' % (ln, name)
-            bp = BodyParser(tokenize(body, where), dict(cond=cond, val=val, args=args, levels=levels, where=where))
+            bp = BodyParser(tokenize(body, where), dict(cond=cond, val=val, args=args, levels=levels, where=where, lenient=lenient))
             term = bp.macro_body()
             ent['alts'].append((path, term))
             ent['lines'].append(ln)
